@@ -2,7 +2,7 @@
    Model: model/Conn.v (jsonrpc.py:578-749).  Histories = arbitrary lists of send_request,
    send_batch, receive_message(bytes), cancel_pending_requests on any protocol class. *)
 From Coq Require Import Permutation Sorted.
-From AV Require Import Base Utf8 Json Gen_jsonrpc Codec Conn ConnProofs.
+From AV Require Import Base Utf8 Json Gen_jsonrpc Codec Conn ConnProofs ConnCode ConnCodeProofs.
 
 (* ids outstanding at the same time are pairwise distinct (and below the counter), in every
    reachable state *)
@@ -61,6 +61,65 @@ Example C01_ex :
   = RCompleted (KMany [1; 2]%N) [inl (RResult (JInt 10)); inl (RResult (JInt 20))].
 Proof. vm_compute. split; reflexivity. Qed.
 
+(* JSONRPCConnection._receive_response and _receive_response_batch are translated from the Python source statement
+   by statement on every run (gen/Gen_jsonrpc.v: receive_response_code, receive_response_batch_code); nothing was left
+   untranslated.  Run by the interpreter of model/ConnCode.v they do exactly what the model's receive_response /
+   receive_response_batch do - for every connection state, value and id (a live future) ... *)
+Theorem C01_response_code_known : rknown 4 receive_response_code && rknown 4 receive_response_batch_code = true.
+Proof. exact response_code_known. Qed.
+
+Theorem C01_receive_response_from_source : forall c v rid,
+  receive_response_generated c v rid false = let '(o, c') := receive_response c v rid in RFinished o c'.
+Proof. exact generated_receive_response. Qed.
+
+Theorem C01_receive_response_batch_from_source : forall c p payloads, payloads <> [] ->
+  receive_response_batch_generated c p payloads false =
+  let '(o, c') := receive_response_batch c p payloads in RFinished o c'.
+Proof. exact generated_receive_response_batch. Qed.
+
+(* ... so receive_message with its two response paths taken from the source is the model's receive_message, for every
+   connection state and every byte string (an empty array never reaches the batch path) *)
+Theorem C01_receive_message_from_source : forall c msg, receive_message_src c msg = receive_message c msg.
+Proof. exact receive_message_from_source. Qed.
+
+(* what the hand-written model does not have: the caller gave up (its future is finished) while the request was
+   outstanding.  The late response is consumed quietly - no exception, nothing completes - and the id is no longer
+   outstanding; a response to an id that is not outstanding is refused as before *)
+Theorem C01_abandoned_response_consumed : forall c v rid k,
+  single_key rid = Some k -> has_key k c = true ->
+  receive_response_generated c v rid true =
+  RFinished (RItems [] None) (set_reqs c (remove_key k (reqs c)) (next_id c) (cproto c)).
+Proof. exact abandoned_response_consumed. Qed.
+
+Theorem C01_abandoned_unknown_refused : forall c v rid,
+  match single_key rid with Some k => has_key k c = false | None => True end ->
+  receive_response_generated c v rid true = RFinished (RProtoErr INVALID_REQUEST None) c.
+Proof. exact abandoned_unknown_refused. Qed.
+
+(* send_request and send_batch are translated too: ids are taken first, then the message is encoded - which may
+   refuse -, and only then is the awaitable registered; a refused send consumes its ids and leaves nothing outstanding *)
+Theorem C01_send_code_known : qknown send_request_code && qknown send_batch_code = true.
+Proof. exact send_code_known. Qed.
+
+Theorem C01_send_request_from_source : forall c meth args,
+  send_request_generated c meth args = let '(m, c') := send_request c meth args in QFinished m c'.
+Proof. exact generated_send_request. Qed.
+
+Theorem C01_send_batch_from_source : forall c ms,
+  send_batch_generated c ms = let '(m, c') := send_batch c ms in QFinished m c'.
+Proof. exact generated_send_batch. Qed.
+
+(* ... and so is receive_message itself (the dispatcher): detection on the first message of an auto-detecting
+   connection - and only then -, decoding, the ProtocolError that belongs to a response going to that request, the
+   dispatch on the kind of item, the test that tells a response batch from a request batch.  Run over the translated
+   response paths it is the model's receive_message, for every connection state and every byte string *)
+Theorem C01_receive_message_code_known : mknown 4 receive_message_code = true.
+Proof. exact receive_message_code_known. Qed.
+
+Theorem C01_receive_message_dispatch_from_source : forall c msg,
+  receive_message_generated c msg = MFinished (receive_message c msg).
+Proof. exact generated_receive_message_is_model. Qed.
+
 Print Assumptions C01_fresh_ids.
 Print Assumptions C01_recv_exact.
 Print Assumptions C01_others_untouched.
@@ -68,3 +127,14 @@ Print Assumptions C01_receive_effect.
 Print Assumptions C01_resolved_once.
 Print Assumptions C01_batch_order.
 Print Assumptions C01_cancel_all.
+Print Assumptions C01_response_code_known.
+Print Assumptions C01_receive_response_from_source.
+Print Assumptions C01_receive_response_batch_from_source.
+Print Assumptions C01_receive_message_from_source.
+Print Assumptions C01_abandoned_response_consumed.
+Print Assumptions C01_abandoned_unknown_refused.
+Print Assumptions C01_send_code_known.
+Print Assumptions C01_send_request_from_source.
+Print Assumptions C01_send_batch_from_source.
+Print Assumptions C01_receive_message_code_known.
+Print Assumptions C01_receive_message_dispatch_from_source.
